@@ -353,7 +353,7 @@ def run(ctx):
 
     # ---- deeper trees by simulation (several TLC processes, seeds derived from VERIF_SEED); started now, they
     # run in the background while the exhaustive part is generated, replayed and judged
-    chunks, walks = (4, 60) if quick else (8, 700)
+    chunks, walks = (4, 60) if quick else (8, 500)
 
     def sim(k):
         return ctx.tlc("resolve", "Gen_Render", "Gen_Render_sim.cfg", timeout=2400, deadlock=False, workers=1, simulate=walks, depth=6,
